@@ -26,6 +26,25 @@ for f in conf:
                 calls = re.findall(r"    info\.update\(gen_[a-z0-9_]+\(\)\)\n", head)
                 head = head.replace(calls[-1], calls[-1] + f"    info.update({n}())\n", 1)
         open("tools/extract.py", "w").write(head)
+    elif f == "known_findings.jsonl":
+        # three-way by line: HEAD's lines + the lines the branch ADDED since the merge base (keeping both sides of a
+        # conflict would resurrect entries that HEAD deleted after the branch was created)
+        base_rev = sh(f"git merge-base HEAD {br}").stdout.strip()
+        base = set(sh(f"git show {base_rev}:{f}").stdout.splitlines())
+        head = sh(f"git show HEAD:{f}").stdout.splitlines()
+        theirs = sh(f"git show {br}:{f}").stdout.splitlines()
+        added = [l for l in theirs if l not in base and l not in set(head)]
+        import json as _json
+
+        def key(l):
+            try:
+                d = _json.loads(l)
+                return (d.get("property"), d.get("id"))
+            except Exception:
+                return None
+        replaced = {key(l) for l in added if key(l)}
+        kept = [l for l in head if not (key(l) in replaced and l in base)]      # an entry the branch rewrote
+        open(f, "w").write("\n".join(kept + added) + "\n")
     else:
         s = open(f).read()
         s = re.sub(r"<<<<<<< [^\n]*\n(.*?)=======\n(.*?)>>>>>>> [^\n]*\n", lambda m: m.group(1) + m.group(2), s, flags=re.S)
